@@ -91,6 +91,18 @@ CHECKS = {
     "C20": dict(level="exploration", engine="lazyenum",
                 jobs=lambda t: J("lazyenum", "prod-hsw", []) + J("lazyenum", "asan-hsw", []) + (J("lazyenum", "prod-wsm", []) if t == "thorough" else []),
                 rule="all ordered pairs (target, source) of valid duplicate-free texts up to a token budget, keys spelled with and without escapes, plus re-spaced variants: Parse(UpdateLazy(t,s)) succeeds and is value-equal to the recursive merge model with keys matched by decoded value; inputs in exact-size heap buffers under ASan."),
+    "C05": dict(level="exploration", engine="strenum",
+                jobs=lambda t: J("strenum", "prod-hsw", []) + J("strenum", "prod-wsm", []) + J("strenum", "asan-hsw", []),
+                rule="string literals built from atom sequences / raw bytes / \\u escapes at every offset relative to the 16/32-byte blocks, as root, array value, object key and on-demand key, against the scalar reference decoder: accepted <=> reference accepts, decoded bytes equal; plus \\uH\\uL pairs directly through parseStringInplace (thorough: all 2^32)."),
+    "C08": dict(level="exploration", engine="kernels",
+                jobs=lambda t: J("kernels", "prod-hsw", ["--prop", "C08"]) + J("kernels", "asan-hsw", ["--prop", "C08"]) + (J("kernels", "prod-wsm", ["--prop", "C08"]) if t == "thorough" else []),
+                rule="U64toa/I64toa output == snprintf(%llu/%lld), returned length exact, nothing written before the buffer or beyond out+32: every value below 10^8 (whole 1-8 digit kernel), every low 8-digit group under boundary high parts (whole vectorised splitter), all composed boundary values h*10^16+a*10^8+b, powers of 2 and 10 +-2, extremes; Serialize+Parse keeps the integer kind."),
+    "C09": dict(level="exploration", engine="kernels",
+                jobs=lambda t: J("kernels", "prod-hsw", ["--prop", "C09"]) + J("kernels", "prod-wsm", ["--prop", "C09"]) + J("kernels", "asan-hsw", ["--prop", "C09"]),
+                rule="internal::Quote on every length 0..100 with every byte value at every position and two special bytes at all position pairs; output validated byte by byte (verbatim copies, correct escapes, length <= 6n+2); production build: source ending 0..64 bytes before an unmapped page with three different in-page tails (output must not depend on them), destination exactly 6n+35 bytes before an unmapped page; ASan: exact-size heap source and destination."),
+    "C14": dict(level="exploration", engine="kernels",
+                jobs=lambda t: J("kernels", "prod-hsw", ["--prop", "C14"]) + J("kernels", "asan-hsw", ["--prop", "C14"]) + J("kernels", "prod-wsm", ["--prop", "C14"]) + (J("kernels", "prod-dyn", ["--prop", "C14"]) if t == "thorough" else []),
+                rule="InlinedMemcmpEq == (memcmp==0) and sign(InlinedMemcmp)==sign(memcmp) for every length, every first-difference index, sign-sensitive byte pairs, a later opposite difference, both operands placed independently 0..40 bytes before an unmapped page / at every start offset mod 32; FindMember/HasMember with and without the lookup map agree with byte equality."),
 }
 
 
